@@ -29,7 +29,9 @@ CLAIMS = {
              "duplicate check never fires: induction over the tree, invariant 'every stored duplicate key clashes with the binding "
              "being evaluated', Lemmas/MachineNoDup.lean).",
         note=BASE_NOTE + "Hypotheses: flatten-free; every non-selected variable has a non-empty domain (else C02-F1); caching on is "
-             "covered by correspondence and subject to known finding C05-F1.",
+             "covered by correspondence and subject to known finding C05-F1. An expression object other than a variable stands at "
+             "ONE place of a query: one comparison object reused at two places of one condition tree is known finding C02-F2 "
+             "(attributed only when the same query built from separate objects gives the specified rows).",
         tech="Lean 4 proof (soundness/completeness/disjointness by induction) + differential correspondence"),
     'C03': dict(
         text="Over the regenerated inverse/dunder/Not tables: invOp_negates, invOp_involutive, neg_denote (any depth), "
@@ -60,8 +62,12 @@ CLAIMS = {
     'C19': dict(
         text="All C01/C02/C03 theorems hold for an arbitrary World with no truthiness hypothesis; c19_term_truthy_irrelevant, "
              "c19_rows_truthy_irrelevant (rows do not depend on truthy when values are used as values), c19_condition_position. "
-             "Correspondence on datasets full of 0, '', None, False, [], ().",
-        note=BASE_NOTE,
+             "Correspondence on datasets full of 0, '', None, False, [], () - attributes, tuple and dict entries, chains through "
+             "values, user predicates used as values, sized classes whose instances are falsy; one expression object shared by two "
+             "queries (condition position in one, value position in the other).",
+        note=BASE_NOTE + "One expression object used BOTH as a bare condition and as an operand of the SAME query is known finding "
+             "C19-F1 (the per-evaluation state of an expression lives on the object); attributed only when the same query built from "
+             "two separate objects gives the specified rows.",
         tech="Lean 4 proof (frame lemma over the evaluator) + differential correspondence on falsy datasets"),
     'C20': dict(
         text="Transliterated SeenSet/IndexedCache trie (Cache.lean). For ALL histories of inserts (full/partial bindings, "
@@ -182,7 +188,10 @@ CLAIMS = {
              "rules, set-level for any number of variables. A refinement that introduces a variable is decided by correspondence against the executable "
              "reference fireExtRule (one such block per tree, written as the first refinement on its path, refinements only below "
              "it: elsewhere C12 leaves open whether a block that does not mention the new variable fires once per base match or once "
-             "per value). With caching enabled re-evaluation of trees with alternatives is known finding C05-F4.",
+             "per value). With caching enabled re-evaluation of trees with alternatives is known finding C05-F4. OUTSIDE the branch-closed "
+             "programs - an alternative on the root's chain whose condition mentions fewer variables than its conclusion - the "
+             "implementation loses conclusions: known finding C12-F1, exercised by its own stream (cache off) in which every "
+             "deviation is that finding; the main stream stays branch-closed and fully claimed.",
         tech="Lean 4 proof (semantics of the selectors by induction; RDR reference by induction on the surface program) + "
              "kernel-checked small-scope test of the construction + tree-shape and conclusion correspondence"),
     'C04': dict(
@@ -190,12 +199,18 @@ CLAIMS = {
              "history of full / abandoned / aborted evaluations the domains yield what fresh domains yield, and every L1 answer is "
              "a function of that; c04_dup_domain (an object listed twice is yielded once, first and later evaluations). (2) Node "
              "state: Lifecycle transliterates finally:_reset_after_evaluation_(completed); c04_lifecycle_clean for all histories; "
+             "c04_lifecycle_clean_suspended (histories in which an iterator is abandoned WITHOUT being closed: the running mark and "
+             "the start-of-evaluation reset of repair R31) and c04_lifecycle_clean_query_domain (two query objects, one supplying "
+             "a variable's domain of the other, repair R32: after every history of evaluations of either - completed, closed, "
+             "raised, suspended - and of late finalisations, the next evaluation of either starts with every node it reaches clean); "
              "c04_conj_any_state_partial: the L2 machine (evaluator with its caches and duplicate-tracking sets), caching disabled, "
              "returns the L1 rows of a conjunctive query from ANY node state. (3) user data is not part of any model state. Correspondence: pools of queries over shared variables, histories of "
-             "full / take-k-then-close / raise-at-j-th-predicate-call, duplicated domain objects, user data snapshots.",
+             "full / take-k-then-close / take-k-and-keep-the-iterator-suspended / raise-at-j-th-predicate-call, duplicated domain objects, "
+             "a variable ranging over a query of the pool, one expression object shared by two queries, user data snapshots.",
         note=BASE_NOTE + "That a clean node state yields the fresh answer is the L1 semantics (caching off), tied to the code by the "
-             "history correspondence; caching on is subject to C05-F1. Two simultaneously suspended iterators of one query are "
-             "outside the property's operation list.",
+             "history correspondence; caching on is subject to C05-F1. An abandoned iterator may stay suspended while later evaluations "
+             "run; RESUMING it after another evaluation of its query started (interleaved advancing) is outside the property's "
+             "operation list.",
         tech="Lean 4 proof (invariants over operation histories) + history-level differential correspondence"),
     'C05': dict(
         text="PARTIAL. Proved: (a) the cache index (C20: entries, check, exact retrieval on prefix-uniform tries, counter-witness) and "
@@ -227,8 +242,8 @@ CLAIMS = {
         text="Iter.lean: generator-style evaluation over a memoised one-shot domain. c07_no_work_before_first, c07_prefix (at the "
              "k-th result exactly the prefix ending at the k-th qualifying element has been pulled; list equality), c07_pull_once "
              "(all histories: log ++ remainder = original sequence), c07_contents_invariant, c07_full_after_history. "
-             "Correspondence: logging one-shot generators, histories of create / take k / close / full, log length at EVERY "
-             "delivered result.",
+             "Correspondence: logging one-shot generators, histories of create / take k / close / full (every third case: the "
+             "partial evaluations' iterators are left suspended instead of closed), log length at EVERY delivered result.",
         note=BASE_NOTE + "That CPython suspends at yield and stops at close() is trusted (measured by the logging iterator). The "
              "condition is represented by its truth per object (justified by c01/cond_at).",
         tech="Lean 4 proof (induction on the domain list and on histories) + per-result differential correspondence"),
